@@ -117,6 +117,7 @@ package sql
 //@ effect[C13:overwritten-row-is-the-null-version] every sms.objectRepository.SaveObject(_, _, $e) if $e != nil && $e.IsLatest && $e.Id != nil
 //@     needs before sms.objectRepository.FindNullObjectVersionByBucketNameAndKey(_, _, $b, $k) -> ($n, $ne)
 //@     where $ne == nil && $n != nil && $e.Id == $n.Id && $b == bucketName && $k == obj.Key
+//@ effect[C07:if-none-match-put-never-destroys-an-existing-version] never sms.removePartRowsByObjectId(__) if opts != nil && opts.IfNoneMatchStar
 //@ effect[C07:conditional-put-wins-a-cas-first] every sms.objectRepository.SaveObject(_, _, $e) if $e != nil && $e.IsLatest && opts != nil && (opts.IfMatchETag != nil || opts.IfNoneMatchStar) && latestObjectEntity != nil
 //@     needs before sms.objectRepository.UpdateObjectByIdAndOptimisticLockVersion(_, _, $l, _) -> ($ok, $ue)
 //@     where $ue == nil && $ok != nil && *$ok
@@ -141,6 +142,7 @@ package sql
 //@     where $ne == nil && $n != nil && $id == *$n.Id && $b == bucketName && $k == key
 //@ effect[C02:enabled-complete-is-a-new-version] every sms.objectRepository.SaveObject(_, _, $e) if $e != nil && $e.IsLatest && versioningEnabled where $e.VersionID != nil
 //@ effect[C02:unversioned-complete-is-the-null-version] every sms.objectRepository.SaveObject(_, _, $e) if $e != nil && $e.IsLatest && !versioningEnabled where specIsNullVersionID($e.VersionID)
+//@ effect[C07:if-none-match-never-destroys-an-existing-version] never sms.removePartRowsByObjectId(__) if opts != nil && opts.IfNoneMatchStar
 //@ effect[C07:conditional-complete-wins-a-cas-first] every sms.objectRepository.SaveObject(_, _, $e) if $e != nil && $e.IsLatest && opts != nil && (opts.IfMatchETag != nil || opts.IfNoneMatchStar) && latestObjectEntity != nil
 //@     needs before sms.objectRepository.UpdateObjectByIdAndOptimisticLockVersion(_, _, $l, _) -> ($ok, $ue)
 //@     where $ue == nil && $ok != nil && *$ok
